@@ -11,6 +11,10 @@ transactions on the multisig, its cw4-group and the cw20 deposit token, with re-
 dispatched by proposals, hooks and failing dispatches, at arbitrary blocks, after an accepted instantiation
 (`Cw3Flex.Reachable`).  Differences from cw3-fixed: `Execute` also needs `Config::authorize` (executor none / member /
 only), and it returns the deposit refund in front of the proposal's messages; `Close` may return the refund.
+
+The converse over histories (`dispatched_only_by_execute_run`): the instrumented runtime `dispatchT` / `txT` / `runT`
+(= `dispatch` / `tx` / `run` plus the list of leaf messages performed for the multisig; `dispatchT_ok_iff`, `runT_world`)
+and the multiset equation trace = ⨄ of what the handler calls recorded in the ghost log returned.
 -/
 namespace CwPlus.Props.C05Flex
 open CwPlus CwPlus.Cw3 CwPlus.Cw3Core CwPlus.Cw3Flex CwPlus.Props
